@@ -165,6 +165,29 @@ def r_module(ctx: Ctx, model, eff: Effects, eps):
                     if isinstance(node, ast.If) and ast.unparse(node.test) == f"{key} not in {name}" and any(x is st for b in node.body for x in ast.walk(b)):
                         guarded = True
                 ok = ok and guarded
+                # the key must determine the cached value: a parameter itself (or an injective spelling of it); a key that drops
+                # information (file stem, basename, rounded number, lower-cased text) makes different inputs share one entry
+                kexpr = st.slice
+                if isinstance(kexpr, ast.Name) and kexpr.id not in fn.params():
+                    defs = [a.value for a in ast.walk(fn.node) if isinstance(a, ast.Assign) and any(isinstance(t, ast.Name) and t.id == kexpr.id for t in a.targets)]
+                    kexpr = defs[-1] if len(defs) == 1 else kexpr
+
+                def injective(e):
+                    if isinstance(e, ast.Name):
+                        return e.id in fn.params()
+                    if isinstance(e, ast.Tuple):
+                        return all(injective(x) for x in e.elts)
+                    if isinstance(e, ast.Call) and len(e.args) == 1 and not e.keywords and ast.unparse(e.func) in (
+                            "str", "os.fspath", "os.path.abspath", "os.path.realpath", "pathlib.Path", "tuple", "repr"):
+                        return injective(e.args[0])
+                    if isinstance(e, ast.Call) and isinstance(e.func, ast.Attribute) and e.func.attr in ("resolve", "absolute", "as_posix") and not e.args:
+                        return injective(e.func.value)
+                    return False
+                ctx.ob(injective(kexpr), Finding("C04.R-module", fn.where, f"{fn.short}|cache-key-lossy:{name}",
+                                                 f"{fn.short}() files its result in {g} under `{ast.unparse(kexpr)}`, which does not determine the "
+                                                 "arguments (different inputs share one entry): a later call with another input is answered with "
+                                                 "the value cached for the first"),
+                       nontrivial_key=("cache-key-injective", g, fn.name))
             ctx.ob(ok, Finding("C04.R-module", fn.where, f"{fn.short}|write-once:{name}",
                                f"{fn.short}() stores into the cache {g} without the guard `if key in {name}: return {name}[key]` "
                                "(or mutates/deletes entries): cached values could change between calls"),
